@@ -355,21 +355,22 @@ fn format_expression_internal(
             }
         }
         Expression::BinaryOperator { lhs, binop, rhs } => {
-            // A single line comment after the left operand or after the operator would comment out the
-            // rest of the expression if it stayed on the same line: hang the expression instead
+            let lhs_context = if let BinOp::Caret(_) = binop {
+                ExpressionContext::BinaryLHSExponent
+            } else {
+                ExpressionContext::BinaryLHS
+            };
+            let lhs = format_expression_internal(ctx, lhs, lhs_context, shape);
+
+            // A single line comment after the left operand (it may only end with one once redundant parentheses
+            // around it are gone) or after the operator would comment out the rest of the expression if it
+            // stayed on the same line: hang the expression instead
             if lhs.has_trailing_comments(CommentSearch::Single)
                 || binop.token().has_trailing_comments(CommentSearch::Single)
             {
                 let hanging_shape = shape.with_indent(shape.indent().add_indent_level(1));
                 return format_hanging_expression_(ctx, expression, hanging_shape, context, None);
             }
-
-            let context = if let BinOp::Caret(_) = binop {
-                ExpressionContext::BinaryLHSExponent
-            } else {
-                ExpressionContext::BinaryLHS
-            };
-            let lhs = format_expression_internal(ctx, lhs, context, shape);
             let binop = format_binop(ctx, binop, shape);
             let shape = shape.take_last_line(&lhs) + binop.to_string().len();
             Expression::BinaryOperator {
